@@ -27,6 +27,13 @@ def run(ctx):
         comp = rng.random() < 0.35
         cases.append({'ids': ids, 'version': 33, 'edition': 4, 'nsub': rng.choice([1, 2, 3]), 'compressed': comp, 'forced': '-',
                       'seed': rng.randrange(1, 2 ** 32), 'maxrep': 3, 'features': {'wide-character-field': 1}, 'shared': comp})
+    # descriptor lists beginning with class 00 elements (F = 0, X = 0: the first octet of section 3's list is zero)
+    for k in range(ctx.n(10, 100)):
+        head = rng.choice([[1], [10, 11, 12], [30], [4, 5], [1, 30]])
+        ids = head + [rng.choice([1001, 12001, 2001])] + ([101002, 1] if rng.random() < 0.3 else [])
+        comp = rng.random() < 0.3
+        cases.append({'ids': ids, 'version': 33, 'edition': rng.choice([4, 3, 2]), 'nsub': rng.choice([1, 2]), 'compressed': comp,
+                      'forced': '-', 'seed': rng.randrange(1, 2 ** 32), 'maxrep': 3, 'features': {'class-00-first': 1}, 'shared': comp})
     P.attach_templates(cases)
     P.run_gen(cases)
     import random
@@ -51,6 +58,13 @@ def run(ctx):
                 'version': c['version'], 'edition': c['edition'], 'compressed': c['compressed'],
                 'vary_strings': bool(c.get('vary_strings'))}
         eq, detail = P.compare_encode(c)
+        if c['impl_enc'][0] == 'ok':
+            # section 3: the descriptor list is packed F (2 bits) X (6) Y (8), 16 bits each, nothing dropped
+            d3 = B.section3_descriptor_bytes(c['impl_enc'][3])
+            want = B.pack_descriptors(c['ids'])
+            if d3[:len(want)] != want or len(d3) - len(want) not in (0, 1) or any(d3[len(want):]):
+                ctx.violation({'kind': 'C02-descriptor-packing', 'case': case, 'section3': d3.hex(), 'expected': want.hex()},
+                              'section 3 does not hold the descriptor list F/X/Y packed: %s vs %s' % (d3.hex()[:60], want.hex()[:60]))
         if c['impl_enc'][0] != 'ok':
             ctx.dist['encoder-refused-%d' % c['impl_enc'][1]] += 1
         if not eq:
